@@ -12,7 +12,7 @@ use proptest::prelude::*;
 use serde::{Deserialize, Serialize};
 use serde_json::json;
 
-pub const RULE: &str = "generated: logical request x wire spelling x carrier x token x options x requirement set x clock offset in [-15min,+15min], signed by the reference signer; oracle: crate must return Ok and the provider must be asked once with the model's arguments. Non-trivial: the model says MustAccept and the case shows at least one of {query carrier, session token, folded form body, repeated parameter name, prefix-related names, escaped unreserved byte, lower-case hex escape, '+' for space, mixed-case header name, redundant header spaces, non-Z timestamp, clock offset != 0, declared requirements}; distinct by digest of the wire request and configuration.";
+pub const RULE: &str = "generated: logical request x wire spelling x carrier x token x options x requirement set x clock offset in [-15min,+15min], signed by the reference signer; oracle: crate must return Ok and the provider must be asked once with the model's arguments. Also: requests in which one countable ingredient (16 of them: header count, signed-header count, value length, token length, path depth, parameter count, region/service length, body size, ...) is 2^k-1, 2^k or 2^k+1 for k = 4..15. Non-trivial: the model says MustAccept and the case shows at least one of {query carrier, session token, folded form body, repeated parameter name, prefix-related names, escaped unreserved byte, lower-case hex escape, '+' for space, mixed-case header name, redundant header spaces, non-Z timestamp, clock offset != 0, declared requirements}; distinct by digest of the wire request and configuration.";
 
 pub fn subs() -> Vec<Box<dyn AnySub>> {
     vec![
@@ -40,6 +40,8 @@ pub fn subs() -> Vec<Box<dyn AnySub>> {
             },
             check: check_plus_probe,
         }),
+        // one countable ingredient of an otherwise small valid request scaled to a power of two or its neighbours
+        Box::new(EnumSub { name: "scaled", exhaustive: true, list: scaled_list, check: check_scaled }),
         // (last: the log level is process-wide) completeness must not depend on whether anybody listens to the
         // library's trace records; bodies beyond 1 KiB / 64 KiB included
         Box::new(Sub {
@@ -53,6 +55,195 @@ pub fn subs() -> Vec<Box<dyn AnySub>> {
             },
         }),
     ]
+}
+
+#[derive(Clone, Debug, Serialize, Deserialize)]
+pub struct Scaled {
+    pub query_carrier: bool,
+    /// which ingredient is scaled (see `scaled_plan`)
+    pub dim: u8,
+    pub size: usize,
+}
+
+pub const SCALE_DIMS: &[&str] = &[
+    "number of (unsigned) headers", "number of signed headers", "length of a signed header value", "values of one signed header", "length of the session token",
+    "length of the access key", "number of path segments", "length of a path segment", "number of query parameters", "length of a query value",
+    "length of a query name", "length of region and service", "body bytes", "form fields folded", "length of a header name", "trailing spaces of a signed value",
+];
+
+pub fn scaled_list(t: Tier) -> Vec<Scaled> {
+    let mut out = Vec::new();
+    for dim in 0..SCALE_DIMS.len() as u8 {
+        for k in 4u32..=15 {
+            if t == Tier::Quick && ![5, 8, 10, 12, 13].contains(&k) {
+                continue;
+            }
+            for d in [-1i64, 0, 1] {
+                for q in [false, true] {
+                    out.push(Scaled { query_carrier: q, dim, size: ((1i64 << k) + d) as usize });
+                }
+            }
+        }
+    }
+    out
+}
+
+/// None where the http crate (64 KiB request targets, 32 K headers) cannot carry the size.
+pub fn scaled_plan(sc: &Scaled) -> Option<Plan> {
+    let mut p = simple_plan(if sc.query_carrier { Carrier::Query } else { Carrier::Header });
+    let n = sc.size;
+    let in_target = |bytes: usize| bytes < 60_000;
+    match sc.dim {
+        0 => {
+            if n > 20_000 {
+                return None;
+            }
+            for i in 0..n {
+                p.logical.headers.push((format!("x-h{}", i), vec![B::from("v")]));
+            }
+        }
+        1 => {
+            if n > 20_000 || sc.query_carrier && !in_target(n * 8) {
+                return None;
+            }
+            for i in 0..n {
+                p.logical.headers.push((format!("x-s{:05}", i), vec![B::from("v")]));
+                p.spec.signed_headers.push(format!("x-s{:05}", i));
+            }
+            p.spec.signed_headers.sort();
+        }
+        2 => {
+            p.logical.headers.push(("x-long".into(), vec![B("v".repeat(n).into_bytes())]));
+            p.spec.signed_headers.push("x-long".into());
+            p.spec.signed_headers.sort();
+        }
+        3 => {
+            if n > 20_000 {
+                return None;
+            }
+            p.logical.headers.push(("x-multi".into(), (0..n).map(|i| B::from(format!("v{}", i % 10))).collect()));
+            p.spec.signed_headers.push("x-multi".into());
+            p.spec.signed_headers.sort();
+        }
+        4 => {
+            if sc.query_carrier && !in_target(n) {
+                return None;
+            }
+            let t = "t".repeat(n);
+            p.spec.token = Some(t.clone());
+            p.entry.token = Some(t);
+        }
+        5 => {
+            if sc.query_carrier && !in_target(n) {
+                return None;
+            }
+            p.spec.access_key = "A".repeat(n);
+            p.entry.access_key = p.spec.access_key.clone();
+        }
+        6 => {
+            if !in_target(n * 2) {
+                return None;
+            }
+            p.logical.segments = (0..n).map(|_| B::from("s")).collect();
+        }
+        7 => {
+            if !in_target(n) {
+                return None;
+            }
+            p.logical.segments = vec![B("s".repeat(n).into_bytes())];
+        }
+        8 => {
+            if !in_target(n * 9) {
+                return None;
+            }
+            p.logical.query = (0..n).map(|i| (B::from(format!("q{:05}", (i * 7919) % n)), B::from("1"))).collect();
+        }
+        9 => {
+            if !in_target(n) {
+                return None;
+            }
+            p.logical.query = vec![(B::from("k"), B("v".repeat(n).into_bytes()))];
+        }
+        10 => {
+            if !in_target(n) {
+                return None;
+            }
+            p.logical.query = vec![(B("k".repeat(n).into_bytes()), B::from("v"))];
+        }
+        11 => {
+            if sc.query_carrier && !in_target(2 * n) {
+                return None;
+            }
+            p.cfg.region = "r".repeat(n);
+            p.cfg.service = "s".repeat(n);
+        }
+        12 => {
+            p.logical.method = "PUT".into();
+            p.logical.body = B((0..n * 8).map(|i| (i % 251) as u8).collect());
+        }
+        13 => {
+            if !in_target(n * 9) {
+                return None;
+            }
+            p.logical.method = "POST".into();
+            p.cfg.fold = true;
+            p.form = Some((0..n).map(|i| (B::from(format!("f{:05}", i)), B::from("1"))).collect());
+        }
+        14 => {
+            if n > 30_000 || sc.query_carrier && !in_target(n) {
+                return None;
+            }
+            let name = format!("x-{}", "n".repeat(n));
+            p.logical.headers.push((name.clone(), vec![B::from("v")]));
+            p.spec.signed_headers.push(name);
+            p.spec.signed_headers.sort();
+        }
+        _ => {
+            p.logical.headers.push(("x-pad".into(), vec![B::from("v")]));
+            p.spec.signed_headers.push("x-pad".into());
+            p.spec.signed_headers.sort();
+            // the padding itself is put on by the caller (the logical value stays "v")
+        }
+    }
+    Some(p)
+}
+
+pub fn check_scaled(sc: &Scaled, cc: &mut CaseCtx) -> CheckResult {
+    let Some(p) = scaled_plan(sc) else {
+        cc.class("beyond-what-http-can-carry");
+        return Ok(());
+    };
+    let Ok(mut built) = p.build() else {
+        cc.class("unsignable");
+        return Ok(());
+    };
+    if sc.dim == 15 {
+        for (n, v) in built.case.req.headers.iter_mut() {
+            if n.eq_ignore_ascii_case("x-pad") {
+                v.0.extend(std::iter::repeat(b' ').take(sc.size));
+            }
+        }
+    }
+    let case = &built.case;
+    let (a, o) = (analyze(case), exec::run(case));
+    let dim = SCALE_DIMS[sc.dim as usize % SCALE_DIMS.len()];
+    if let exec::Res::Unrepresentable(_) = o.res {
+        cc.class("beyond-what-http-can-carry");
+        return Ok(());
+    }
+    if !a.verdict().is_specified() {
+        cc.unspecified = true;
+        return check_total(&o);
+    }
+    if !a.verdict().is_accept() {
+        return Err(harness_bug(format!("scaled request ({} = {}) is refused by the model: {}", dim, sc.size, a.verdict().short())));
+    }
+    cc.class(dim);
+    cc.nontrivial(digest_of(&[&[sc.dim, sc.query_carrier as u8], &sc.size.to_le_bytes()]));
+    if sc.size.is_power_of_two() && !sc.query_carrier {
+        cc.sample(json!({"scaled": dim, "size": sc.size, "carrier": "header"}));
+    }
+    check_against_model(&a, &o).map_err(|f| Failure::new(&format!("scaled:{}", f.sig), format!("{} = {} ({} carrier): {}", dim, sc.size, if sc.query_carrier { "query" } else { "header" }, f.msg.chars().take(300).collect::<String>())))
 }
 
 pub fn check_plus_probe(p: &Plan, cc: &mut CaseCtx) -> CheckResult {
